@@ -22,7 +22,7 @@ pub const MAX_NODES: usize = 3;
 /// the model bound.
 pub const MAX_EDGES: usize = MAX_NODES * (MAX_NODES - 1) / 2 + 2;
 /// Per-node adjacency list capacity.
-pub const ADJ: usize = MAX_NODES + 1;
+pub const ADJ: usize = MAX_NODES;
 
 pub unsafe trait IndexType: Copy + Default + Hash + Ord + Debug + 'static {
     fn new(x: usize) -> Self;
@@ -255,10 +255,10 @@ impl<N, E, Ix: IndexType> Dag<N, E, Ix> {
         NodeWeightsMut { it: self.nodes.iter_mut() }
     }
     pub fn children(&self, parent: NodeIndex<Ix>) -> Children<N, E, Ix> {
-        Children { node: parent, next: self.out_n[parent.index()] as usize, _m: PhantomData }
+        Children { node: parent, k: 0, _m: PhantomData }
     }
     pub fn parents(&self, child: NodeIndex<Ix>) -> Parents<N, E, Ix> {
-        Parents { node: child, next: self.in_n[child.index()] as usize, _m: PhantomData }
+        Parents { node: child, k: 0, _m: PhantomData }
     }
     fn has_incoming_unordered(&self, n: usize, ordered: &[bool; MAX_NODES]) -> bool {
         let mut r = false;
@@ -334,35 +334,47 @@ where
     }
 }
 
+/// Walkers count their steps with `k` (starting from the constant 0) so that
+/// the end of the walk after at most `ADJ` items is visible to constant
+/// propagation: loops over a walker unwind `ADJ + 1` times, not to the global bound.
 pub struct Children<N, E, Ix> {
     node: NodeIndex<Ix>,
-    next: usize,
+    k: usize,
     _m: PhantomData<(N, E)>,
 }
 impl<'a, N, E, Ix: IndexType> Walker<&'a Dag<N, E, Ix>> for Children<N, E, Ix> {
     type Item = (EdgeIndex<Ix>, NodeIndex<Ix>);
     fn walk_next(&mut self, dag: &'a Dag<N, E, Ix>) -> Option<Self::Item> {
-        if self.next == 0 {
+        if self.k >= ADJ {
             return None;
         }
-        self.next -= 1;
-        let ei = dag.out_e[self.node.index()][self.next] as usize;
+        let n = dag.out_n[self.node.index()] as usize;
+        if self.k >= n {
+            return None;
+        }
+        // most recently added edge first
+        let ei = dag.out_e[self.node.index()][n - 1 - self.k] as usize;
+        self.k += 1;
         Some((EdgeIndex::new(ei), NodeIndex::new(dag.e_dst[ei] as usize)))
     }
 }
 pub struct Parents<N, E, Ix> {
     node: NodeIndex<Ix>,
-    next: usize,
+    k: usize,
     _m: PhantomData<(N, E)>,
 }
 impl<'a, N, E, Ix: IndexType> Walker<&'a Dag<N, E, Ix>> for Parents<N, E, Ix> {
     type Item = (EdgeIndex<Ix>, NodeIndex<Ix>);
     fn walk_next(&mut self, dag: &'a Dag<N, E, Ix>) -> Option<Self::Item> {
-        if self.next == 0 {
+        if self.k >= ADJ {
             return None;
         }
-        self.next -= 1;
-        let ei = dag.in_e[self.node.index()][self.next] as usize;
+        let n = dag.in_n[self.node.index()] as usize;
+        if self.k >= n {
+            return None;
+        }
+        let ei = dag.in_e[self.node.index()][n - 1 - self.k] as usize;
+        self.k += 1;
         Some((EdgeIndex::new(ei), NodeIndex::new(dag.e_src[ei] as usize)))
     }
 }
@@ -428,7 +440,11 @@ pub mod petgraph {
             /// every neighbour (most recent edge first) all of whose incoming
             /// neighbours are visited, return the node.
             pub fn next<N, E>(&mut self, g: &Dag<N, E, Ix>) -> Option<NodeIndex<Ix>> {
-                while self.ntovisit > 0 {
+                // at most one pop per stack slot; the constant bound keeps the
+                // loop's unwinding independent of the global bound
+                let mut pops = 0;
+                while pops < MAX_NODES && self.ntovisit > 0 {
+                    pops += 1;
                     self.ntovisit -= 1;
                     let nix = self.tovisit[self.ntovisit as usize] as usize;
                     if self.ordered[nix] {
@@ -448,6 +464,7 @@ pub mod petgraph {
                     }
                     return Some(NodeIndex::new(nix));
                 }
+                assert!(self.ntovisit == 0, "model bound exceeded: Topo stack holds more stale entries than nodes");
                 None
             }
         }
